@@ -315,6 +315,28 @@ func (c *Ctx) ruleCondStores() {
 			rep.bad("R-CONDSTORE", "Cond", "records Valid verdict", c.p.pos(fn.Pos()), "the constructor does not record Valid()'s error")
 		}
 	}
+	// a setter writes its own component and nothing else: a refused argument has no other effect
+	// (no error recorded that would make later, acceptable arguments be refused as well)
+	for _, sw := range []struct{ fn, loc string }{
+		{"(*condition).setKeyword", "condition.kw"}, {"(*condition).setOperator", "condition.op"}, {"(*condition).setExpression", "condition.ex"},
+	} {
+		fn := c.p.ByName[sw.fn]
+		if fn == nil {
+			continue
+		}
+		var other []string
+		for _, w := range c.eff.writesOf(fn) {
+			if w.Loc != sw.loc {
+				other = append(other, w.String())
+			}
+		}
+		sort.Strings(other)
+		if len(other) == 0 {
+			rep.ok("R-CONDSTORE", sw.fn, "writes only its component", c.p.pos(fn.Pos()), "the write set is {"+sw.loc+"}")
+		} else {
+			rep.bad("R-CONDSTORE", sw.fn, "writes only its component", c.p.pos(fn.Pos()), "besides "+sw.loc+" the setter also writes "+strings.Join(other, ", ")+": offering a value that is refused must leave everything as it was")
+		}
+	}
 	// String is gated by Valid()==nil
 	if fn := c.anchor("R-CONDSTORE", "Condition.String"); fn != nil {
 		fa := c.eng.analyze(fn, nil)
@@ -596,4 +618,80 @@ func (c *Ctx) isNilPtrPredicate(g *ssa.Function) bool {
 	}
 	res = n > 0
 	return res
+}
+
+// ruleNilPtrInvoke: a method of one of the package's own interfaces (Operator,
+// Interface) invoked on a value that came from the user - an element, an
+// argument - panics in the runtime's pointer wrapper when that value is a nil
+// pointer whose type has the method on its value receiver (a nil *Stack, a nil
+// *ComparisonOperator).  Every such invoke is reached only where an in-package
+// nil-pointer predicate has said no about the receiver value on that path, or
+// its receiver is the operator stored in a Condition (which R-CONDSTORE shows is
+// stored only after that very test).
+func (c *Ctx) ruleNilPtrInvoke(scope []*ssa.Function) {
+	rep := c.rep
+	n := 0
+	fns := scope
+	if fns == nil {
+		fns = c.p.Funcs
+	}
+	for _, fn := range fns {
+		var fa *FnAnalysis
+		ord := newOrdinal()
+		for _, b := range fn.Blocks {
+			for _, in := range b.Instrs {
+				call, ok := in.(*ssa.Call)
+				if !ok || !call.Call.IsInvoke() {
+					continue
+				}
+				nt, ok := call.Call.Value.Type().(*types.Named)
+				if !ok || nt.Obj().Pkg() == nil || nt.Obj().Pkg() != c.p.Types {
+					continue
+				}
+				n++
+				construct := ord.next("invoke " + nt.Obj().Name() + "." + call.Call.Method.Name())
+				pos := c.p.instrPos(in)
+				ss := srcSet{}
+				c.sources(fn, call.Call.Value, 0, map[ssa.Value]bool{}, ss)
+				stored := ss["field:condition.op"]
+				for k := range ss {
+					if (strings.HasPrefix(k, "param:") && k != "param:0") || k == "elem" {
+						stored = false
+					}
+				}
+				if stored {
+					rep.ok("R-NILPTR", relName(fn), construct, pos, "the receiver is the operator stored in the Condition (stored only after the nil-pointer test, R-CONDSTORE)")
+					continue
+				}
+				if fa == nil {
+					fa = c.eng.analyze(fn, nil)
+				}
+				recv := call.Call.Value
+				// a checked assertion x.(I) keeps the value: test the asserted operand as well
+				cands := []ssa.Value{recv}
+				if ex, ok := recv.(*ssa.Extract); ok {
+					if ta, ok := ex.Tuple.(*ssa.TypeAssert); ok {
+						cands = append(cands, ta.X)
+					}
+				}
+				if ta, ok := recv.(*ssa.TypeAssert); ok {
+					cands = append(cands, ta.X)
+				}
+				good := fa.reachable(call) && fa.allHold(call, func(s *State) bool {
+					for _, v := range cands {
+						if c.nilPtrTestedFalse(fn, fa, s, v) {
+							return true
+						}
+					}
+					return false
+				})
+				if good {
+					rep.ok("R-NILPTR", relName(fn), construct, pos, "reached only where the nil-pointer predicate said no about the receiver value")
+				} else {
+					rep.bad("R-NILPTR", relName(fn), construct, pos, "a method of a user-supplied value is invoked through the interface although the value may be a nil pointer (calling a value-receiver method through it panics)")
+				}
+			}
+		}
+	}
+	rep.Extra["own_interface_invokes"] = n
 }
